@@ -42,6 +42,7 @@ class FnSpec:
         self.rename = None
         self.ret = 'r'
         self.nocanary = False
+        self.selfparam = None
 
     @property
     def qual(self):
@@ -59,7 +60,7 @@ class Unit:
         self.notes = []
 
 
-DIRECTIVES = ('props', 'requires', 'ensures', 'loop', 'rewrite', 'rewrite*', 'insert', 'emit', 'attr', 'rename',
+DIRECTIVES = ('selfparam', 'props', 'requires', 'ensures', 'loop', 'rewrite', 'rewrite*', 'insert', 'emit', 'attr', 'rename',
               'ret', 'end', 'recommends', 'decreases', 'nocanary')
 
 
@@ -112,6 +113,8 @@ def parse_unit(path):
                 u.items.append(('type', w[1], w[2], w[3:]))
             elif w[0] == 'const':
                 u.items.append(('const', w[1], w[2]))
+            elif w[0] == 'dispatch':
+                u.items.append(('dispatch', w[1], w[2]))
             elif w[0] == 'fn':
                 m = re.match(r'fn\s+(\S+)\s*::\s*(.+?)\s*::\s*(\w+)\s*$', s)
                 if not m:
@@ -142,6 +145,8 @@ def parse_unit(path):
                 cur.ret = rest
             elif first == 'nocanary':
                 cur.nocanary = True
+            elif first == 'selfparam':
+                cur.selfparam = rest
             elif first in ('requires', 'ensures', 'recommends', 'decreases'):
                 if first == 'decreases':
                     c = Clause('decreases', cur.qual + '.decreases', list(cur.props), '')
@@ -394,6 +399,7 @@ def assemble(unit, canary=False):
     out.add_text('use vstd::prelude::*;', ('gen',))
     out.add_text('verus! {', ('gen',))
     srcs = {}
+    broadcasts = []
 
     def get_src(file):
         p = os.path.join(repo_src(), file)
@@ -411,6 +417,9 @@ def assemble(unit, canary=False):
             for n, ln in enumerate(open(p, encoding='utf-8').read().split('\n')):
                 out.lines.append(ln)
                 out.origin.append(('prelude', item[1], n + 1))
+                mb = re.match(r'\s*// @broadcast (\S+)', ln)
+                if mb:
+                    broadcasts.append((mb.group(1), item[1], n + 1))
         elif item[0] == 'specfile':
             p = os.path.join(VERIF, item[1])
             out.add_text(f'// ---- shared specification file (definitions + proved lemmas, no assumptions): {item[1]}', ('gen',))
@@ -444,6 +453,24 @@ def assemble(unit, canary=False):
             for n, ln in enumerate(('pub ' + text).split('\n')):
                 out.lines.append(ln)
                 out.origin.append(('src', file, base + n))
+        elif item[0] == 'dispatch':
+            # R4: `#[enum_dispatch] enum Operation { Bol, Atom, .. }` -> tuple-variant enum + From impls
+            _, file, name = item
+            src = get_src(file)
+            a, b = src.find_type(name)
+            body = src.text[src.text.index('{', a) + 1:b - 1]
+            variants = [v.strip() for v in re.sub(r'//[^\n]*', '', body).split(',') if v.strip()]
+            if not all(re.match(r'^\w+$', v) for v in variants):
+                raise Lost(f'{file}: enum {name} is not a plain enum_dispatch variant list: {variants}')
+            out.add_text(f'// ---- R4: enum_dispatch expansion of {name} ({file}:{src.line_of(a)}), variants as in the source', ('gen',))
+            gen = [f'pub enum {name} {{'] + [f'    {v}({v}),' for v in variants] + ['}']
+            for v in variants:
+                gen += [f'impl From<{v}> for {name} {{ fn from(v: {v}) -> {name} {{ {name}::{v}(v) }} }}',
+                        f'impl vstd::std_specs::convert::FromSpecImpl<{v}> for {name} {{',
+                        f'    open spec fn obeys_from_spec() -> bool {{ true }}',
+                        f'    open spec fn from_spec(v: {v}) -> {name} {{ {name}::{v}(v) }}',
+                        '}']
+            out.add_text('\n'.join(gen), ('rw', 'R4'))
         elif item[0] == 'const':
             _, file, name = item
             src = get_src(file)
@@ -453,6 +480,10 @@ def assemble(unit, canary=False):
             out.add_text(text, ('src', file, src.line_of(a)))
         elif item[0] == 'fn':
             emit_fn(asm, unit, item[1], get_src(item[1].file), canary)
+    if broadcasts:
+        # one module-level `broadcast use` per module is allowed: collected from the `// @broadcast` marks of the preludes
+        out.lines.append('broadcast use {' + ', '.join(b[0] for b in broadcasts) + '};')
+        out.origin.append(('prelude', broadcasts[0][1], broadcasts[0][2]))
     out.add_text('} // verus!', ('gen',))
     out.add_text('fn main() {}', ('gen',))
     return asm
@@ -519,6 +550,22 @@ def emit_fn(asm, unit, fs, src, canary):
             j = find_unique(src, old, fn_kw, bc + 1, f'rewrite {rule} in {fs.qual}')
             ed.add(j, j + len(old), new, ('rw', rule))
         log.append(rule)
+    if fs.selfparam:
+        # R12: by-value `mut self` receiver -> ordinary parameter `mut this: T`; token `self` -> `this`
+        ty = fs.impl.split(' for ')[-1]
+        m = re.compile(r'\(\s*mut\s+self\b').search(src.text, fn_kw, bo)
+        if not m:
+            raise Lost(f'lost anchor: {fs.qual}: `mut self` receiver not found')
+        ed.add(m.start(), m.end(), f'(mut {fs.selfparam}: {ty}', ('rw', 'R12'))
+        def covered(p):
+            return any(s0 <= p < e0 for (s0, e0, _, _) in ed.edits)
+        for mm in src.find_code(r'\bself\b', bo, bc + 1):
+            if not covered(mm.start()):
+                ed.add(mm.start(), mm.end(), fs.selfparam, ('rw', 'R12'))
+        for mm in src.find_code(r'\bSelf\b', bo, bc + 1):
+            if not covered(mm.start()):
+                ed.add(mm.start(), mm.end(), ty, ('rw', 'R12'))
+        log.append('R12')
     # contract clauses at the signature
     sig = []
     groups = [('requires', 'requires'), ('ensures', 'ensures'), ('decreases', 'decreases')]
